@@ -638,17 +638,7 @@ func (m *Model) Pull(s *MSub, max int, resp []RecvMsg, t0, t1 time.Time) *Violat
 			continue
 		}
 		if cfg.Ordered && !s.OrderedToggled && e.Msg.Key != "" {
-			blocked := false
-			for _, p := range s.EDs {
-				if p == e {
-					break
-				}
-				if p.Msg.Key == e.Msg.Key && !p.definitelySettled(t0) {
-					blocked = true
-					break
-				}
-			}
-			if blocked {
+			if m.orderBlocked(e, t0) {
 				m.probe("ordered_blocked_by_predecessor")
 				continue
 			}
@@ -761,7 +751,25 @@ func (m *Model) PullFailed(s *MSub, t1 time.Time) {
 
 // ---- dead-lettering ------------------------------------------------------------------------
 
+// hasCopies: the subscription holds several deliveries of this message (dead-letter cycles).
+// The model cannot tell the copies apart (ack ids are bound by guessing), so which of them a
+// dead-letter move retired is a guess too: such moves only produce optional forwards.
+func (m *Model) hasCopies(e *ED) bool {
+	n := 0
+	for _, x := range e.Sub.EDs {
+		if x.Msg == e.Msg && x.State != stGone {
+			n++
+		}
+	}
+	return n > 1
+}
+
 func (m *Model) deadLetter(e *ED, t0, t1 time.Time) {
+	if m.hasCopies(e) {
+		m.deadLetterMaybe(e, t0)
+		m.probe("dl_ambiguous_copy")
+		return
+	}
 	wasMaybe := e.DLMaybe
 	e.State = stDL
 	e.DLMaybe = false
@@ -1260,17 +1268,7 @@ func (m *Model) MustDeliverable(s *MSub, t0, t1 time.Time) []*ED {
 			if s.OrderedToggled {
 				continue
 			}
-			blocked := false
-			for _, p := range s.EDs {
-				if p == e {
-					break
-				}
-				if p.Msg.Key == e.Msg.Key && !p.definitelySettled(t0) {
-					blocked = true
-					break
-				}
-			}
-			if blocked {
+			if m.orderBlocked(e, t0) {
 				continue
 			}
 		}
@@ -1293,6 +1291,15 @@ func (m *Model) Nack(ids []string, t0, t1 time.Time) {
 			continue
 		}
 		done[e] = true
+		if e.State == stGone {
+			// a nack with an ack id of a deleted subscription: whether that still dead-letters
+			// the delivery is not defined by the text; forwarded copies are optional
+			if c := &e.Sub.Cfg; c.fullDL() && e.Seen+e.SeenUnc >= int(c.MaxAttempts) && e.mayAlive(t0) {
+				m.deadLetterMaybe(e, t0)
+				e.State = stGone
+			}
+			continue
+		}
 		if e.State != stOut && !e.Fuzzy {
 			m.probe("nack_stale_id")
 			continue
@@ -1348,4 +1355,30 @@ func (m *Model) ConfigChanged(s *MSub) {
 			}
 		}
 	}
+}
+
+// orderBlocked: is e (keyed, on an ordering subscription) possibly held back by another
+// same-key delivery? Earlier deliveries block it; for dead-letter-forwarded copies the order
+// inside one forwarding batch is the implementation's choice, so same-batch copies block too.
+func (m *Model) orderBlocked(e *ED, t0 time.Time) bool {
+	seenSelf := false
+	for _, p := range e.Sub.EDs {
+		if p == e {
+			seenSelf = true
+			continue
+		}
+		if p.Msg.Key != e.Msg.Key || p.State == stGone {
+			continue
+		}
+		if !seenSelf {
+			if !p.definitelySettled(t0) {
+				return true
+			}
+		} else if e.Origin != nil && p.Origin != nil && !p.CreLo.After(e.CreHi) && !p.CreHi.Before(e.CreLo) {
+			if !p.definitelySettled(t0) {
+				return true
+			}
+		}
+	}
+	return false
 }
